@@ -41,8 +41,21 @@ def jdefault(o):
     return repr(o)
 
 
+def sanitize(o):
+    if isinstance(o, dict):
+        return {(k if isinstance(k, str) else repr(k)): sanitize(v) for k, v in o.items()}
+    if isinstance(o, (list, tuple)):
+        return [sanitize(x) for x in o]
+    if isinstance(o, (set, frozenset)):
+        return sorted((sanitize(x) for x in o), key=repr)
+    return o
+
+
 def jdump(o, **kw):
-    return json.dumps(o, default=jdefault, sort_keys=True, ensure_ascii=True, **kw)
+    try:
+        return json.dumps(o, default=jdefault, sort_keys=True, ensure_ascii=True, **kw)
+    except TypeError:
+        return json.dumps(sanitize(o), default=jdefault, sort_keys=True, ensure_ascii=True, **kw)
 
 
 def digest(o):
